@@ -27,6 +27,9 @@ CpuCases == {[res |-> r, cap |-> 16, len |-> n] : r \in CpuRes, n \in {3, 40, 60
 \* whatever the per-level limits are (the recursion of assemble() is as deep as the product)
 Prod == {"prod_include_if", "prod_macro_if", "prod_include_macro_if", "prod_include_repeat1"}
 ProdCases == {[res |-> r, cap |-> 1, len |-> n] : r \in Prod, n \in {2, 16, 64, 126, 127, 128}}
+\* entries of the macro table are carved out of pools of 32768 bytes (an entry is 4 bytes, the name, the text and two
+\* terminators): texts of every length that brings an entry to the size of a pool, one byte at a time
+PoolCases == {[res |-> r, cap |-> 32768, len |-> n] : r \in {"define_value_exact", "macro_body_exact"}, n \in 32700..32775}
 Lens(cap) == {1, cap \div 2, cap - 1, cap, cap + 1, cap + 2, 2 * cap, 2 * cap + 1} \cup (IF cap <= 4096 THEN {16 * cap} ELSE {})
 \* recursion in the code follows the nesting of the input: these are also tried far beyond any stack
 Deep == {"empty_define_uses", "nest_paren", "nest_unary", "nest_unary_paren", "nest_unary_operand", "nest_if", "nest_ifexpr_not", "nest_ifexpr_paren"}
@@ -38,6 +41,7 @@ Stmts  == {"set", "set_existing", "label", "db", "insn", "macro", "define", "equ
            "include", "binfile", "repeat", "align", "entry_point", "call_undefined", "undef"}
 PassCases == {[res |-> "pass_only", cap |-> 1, len |-> 1, guard |-> g, later |-> d, stmt |-> t] : g \in Guards, d \in Laters, t \in Stmts}
 Init == \/ c \in PassCases
+        \/ c \in PoolCases
         \/ c \in ProdCases
         \/ c \in CpuCases
         \/ \E x \in NameRes : \E n \in {x.cap - 2, x.cap - 1, x.cap, x.cap + 1, x.cap + 2} : c = [res |-> x.r, cap |-> x.cap, len |-> n]
